@@ -12,10 +12,28 @@ type Verdict struct {
 	Detail     map[string]interface{}
 	Sig        string // scenario signature (distinct counting)
 	NonTrivial bool
-	Evals      int            // executions performed for this verdict
-	Stats      map[string]int // fault / reach counters accumulated over the executions
-	NotJudged  string         // reason the main oracle was not applied ("" = applied)
-	Trouble    string         // harness trouble (exit 2), never a violation
+	Evals      int               // executions performed for this verdict
+	Stats      map[string]int    // fault / reach counters accumulated over the executions
+	NotJudged  string            // reason the main oracle was not applied ("" = applied)
+	Trouble    string            // harness trouble (exit 2), never a violation
+	KnownHits  map[string]string // known finding id → message of the first atomic failure it covered
+}
+
+// failAttr reports one atomic failure described by attrs. If a listed known
+// finding covers exactly this failure (matcher over class and attrs) it is
+// recorded as a known hit and does not fail the verdict; any other failure in
+// the same scenario still does, so a known finding never masks a new one.
+func (v *Verdict) failAttr(prop, class, msg string, attrs map[string]string) *Verdict {
+	if id := knownGlobal.matchAttrs(prop, class, attrs); id != "" {
+		if v.KnownHits == nil {
+			v.KnownHits = map[string]string{}
+		}
+		if _, ok := v.KnownHits[id]; !ok {
+			v.KnownHits[id] = msg
+		}
+		return v
+	}
+	return v.fail(class, msg)
 }
 
 func (v *Verdict) addStats(m map[string]int) {
@@ -74,4 +92,5 @@ func propertyIDs() []string {
 func init() {
 	register(propC15{})
 	register(propC14{})
+	register(propC12{})
 }
